@@ -224,7 +224,8 @@ func (m *FloodSub) execPublish(prevHopPeerID peer.ID, pubMsg *publishChMsg) {
 		}
 
 		peer, ok := m.peers[pid]
-		if ok {
+		// a stream that was added but not started yet has no context.
+		if ok && peer.ctx != nil {
 			peer.writePacket(pkt)
 		}
 	}
